@@ -49,8 +49,8 @@ Proof.
     + unfold fill_nd. rewrite find_nd_coded_spec; auto.
   - destruct ((match ws with Some _ => negb wok | None => false end) || _); auto.
     destruct (is1d s) eqn:E1.
-    + destruct (axes_ok_nth s Hax E1) as [Hr Hne]. rewrite calc1d_is_spec; auto.
-    + rewrite calc_nd_coded_is_spec; auto.
+    + destruct (axes_ok_nth s Hax E1) as [Hr Hne]. destruct (pairs_1d rows ws); auto. rewrite calc1d_is_spec; auto.
+    + destruct (rows_of rows ws); auto. rewrite calc_nd_coded_is_spec; auto.
 Qed.
 
 Lemma step_axes st1 st2 st3 b s o : s_axes (fst (step b st1 st2 st3 s o)) = s_axes s.
@@ -60,8 +60,8 @@ Proof.
     + unfold fill_1d. destruct (st1 _ _ _); reflexivity.
     + unfold fill_nd. destruct (find_nd _ _ _); reflexivity.
   - destruct (_ || _); auto. destruct (is1d s).
-    + destruct (st2 _ _) as [[fe u] o']. reflexivity.
-    + reflexivity.
+    + destruct (pairs_1d rows ws); auto. destruct (st2 _ _) as [[fe u] o']. reflexivity.
+    + destruct (rows_of rows ws); auto.
 Qed.
 
 Theorem run_coded_is_spec : forall ops s, axes_ok (s_axes s) -> forallb nan_free ops = true ->
